@@ -65,6 +65,8 @@ import DD.DumpDriver
 import DD.MddDriver
 import DD.ParseDriver
 import DDProofs.Reach4New
+import DDProps.C08XCopy
+import DDProps.C17Capacity
 open Std
 
 namespace DD
